@@ -1,7 +1,13 @@
 import Hannibal.Props.C16
 import Hannibal.Props.C05Current
+import Hannibal.Generated.SysFacts
 /- C16 for the wiring extracted from today's source. -/
 namespace Hannibal
+
+/-- the system model is written for code of this shape: children are strong senders stored in the parent's
+    context and nowhere else, released only with it; `send_to_children` reaches every child registered for the
+    message type and goes on after an error (read off the source on every run) -/
+theorem shape16_current : SysFacts.current.ok16 = true := by decide
 
 theorem C16_lifetime_current (ls : List SLabel) (S : Sys) (hr : srun Wiring.current Sys.init ls = some S)
     (a : Nat) (sa : AState) (hg : S.get a = some sa) :
